@@ -23,7 +23,7 @@ CLAIMS = {
             TB + "networkx trusted and cross-checked. Known finding F1 (after= a product-less task is not ordered) is listed in known_findings.json.",
             "Lean 4 proof (invariant by induction over scheduler ops / picks) + translator facts + differential correspondence"),
     "C19": ("Lean 4 theorems (C19_batch, C19_pick_max, C19_first, C19_last, C19_progress, C19_deps, C19_reject for every "
-            "state, every n and every set-iteration order; history level: C19_waiting, C19_first_not_overtaken, C19_last_waits — over every run of batches and completions a ready task stays ready and nothing of lower priority is handed out while it waits; C19_no_deadlock, C19_ranked_run, C19_run_never_stalls — after any run from an acyclic state with tasks left and none in flight get_ready hands out a task, so priorities never stall the build) over the sorter model; model tied to the code by translator-extracted facts (priority table, slice direction) "
+            "state, every n and every set-iteration order; history level: C19_waiting, C19_first_not_overtaken, C19_last_waits — over every run of batches and completions a ready task stays ready and nothing of lower priority is handed out while it waits; C19_no_deadlock, C19_ranked_run, C19_run_never_stalls, C19_fromDag_ranked, C19_build_never_stalls — after any run from from_dag's start state (acyclic by rank) with tasks left and none in flight get_ready hands out a task, so priorities never stall the build) over the sorter model; model tied to the code by translator-extracted facts (priority table, slice direction) "
             "and by replaying real TopologicalSorter op traces in the model under several hash seeds.",
             TB + "networkx trusted.",
             "Lean 4 proof + translator facts + differential correspondence"),
